@@ -146,6 +146,8 @@ type btScenario struct {
 	Strategies []string       `json:"strategies"`
 	LastDays   int            `json:"last_days"`
 	Repo       string         `json:"repository"`
+	OldLast    bool           `json:"older_history_appended_after_recent"` // stored order is not chronological
+	FromRepo   bool           `json:"names_taken_from_repository"`         // Names left empty: Backtest asks the repository
 	Workers    int            `json:"workers"`
 }
 
@@ -162,7 +164,7 @@ func buildWorld(cc *run.Case, pool []namedStrat, nAssets, nStrats int, repoKind 
 	sc := btScenario{InWindow: map[string]int{}, Old: map[string]int{}, LastDays: r.Pick(365, 120, 60), Repo: repoKind}
 	today := time.Now().UTC().Truncate(24 * time.Hour)
 	for i := 0; i < nAssets; i++ {
-		name := fmt.Sprintf("asset%02d", i)
+		name := fmt.Sprintf("asset%02d%s", i, []string{"", ".b", "s", ".csv", "-c"}[i%5]) // dots and suffix letters in names
 		sc.Assets = append(sc.Assets, name)
 		nIn := r.Range(0, sc.LastDays-6)
 		if r.Intn(4) > 0 {
@@ -194,7 +196,9 @@ func buildWorld(cc *run.Case, pool []namedStrat, nAssets, nStrats int, repoKind 
 			}
 		}
 	}
-	if r.Intn(3) == 0 {
+	sc.OldLast = r.Intn(3) == 0
+	sc.FromRepo = r.Intn(3) == 0
+	if !sc.FromRepo && r.Intn(3) == 0 {
 		// several absent assets, so that more than one worker takes the failure path at the same time
 		for k := r.Range(1, 5); k > 0; k-- {
 			sc.Missing = append(sc.Missing, fmt.Sprintf("absent-asset-%d", k))
@@ -221,9 +225,17 @@ func (w *btWorld) repo() (asset.Repository, func(), error) {
 		return nil, nil, err
 	}
 	for name, snaps := range w.snaps {
-		if err := repo.Append(name, helper.SliceToChan(snaps)); err != nil {
-			cleanup()
-			return nil, nil, err
+		batches := [][]*asset.Snapshot{snaps}
+		if w.sc.OldLast {
+			// a back-fill: the recent snapshots were stored first, the older history later
+			nOld := len(snaps) - len(w.inside[name])
+			batches = [][]*asset.Snapshot{snaps[nOld:], snaps[:nOld]}
+		}
+		for _, b := range batches {
+			if err := repo.Append(name, helper.SliceToChan(b)); err != nil {
+				cleanup()
+				return nil, nil, err
+			}
 		}
 	}
 	for _, name := range w.sc.Assets {
@@ -286,6 +298,9 @@ func c13Run(cc *run.Case, w *btWorld, workers int, raceOnly bool) (string, bool)
 	newBT := func(repo asset.Repository, rep backtest.Report) *backtest.Backtest {
 		bt := backtest.NewBacktest(repo, rep)
 		bt.Names, bt.Strategies, bt.Workers, bt.LastDays, bt.Logger = names, mkStrats(), workers, sc.LastDays, quietLogger
+		if sc.FromRepo {
+			bt.Names = nil // Backtest takes the asset names from repository.Assets()
+		}
 		return bt
 	}
 	repo, cleanup, err := w.repo()
